@@ -487,4 +487,8 @@ theorem k_polyAddOrSubtract_eq (F : GF.GF) (p q : List Nat) (hp : p ≠ []) (hq 
     have hsl : p.length ≤ q.length := by omega
     addsub_tail p q
 
+/-! non-vacuity: the hypotheses of the theorems above are `TablesOK F` (examples in Obligations/K04b.lean: the library's
+    fields) and non-emptiness of the coefficient lists -/
+example : ([1, 0, 7] : List Nat) ≠ [] ∧ ([0] : List Nat) ≠ [] := by decide
+
 end Gzx.Obligations.K04bPoly
